@@ -199,4 +199,83 @@ mod verif_kani_strings {
     #[kani::unwind(9)]
     #[kani::stub(alloc::fmt::format, stub_format)]
     fn k13_basic4() { basic_check::<4>(); }
+
+    // ------------------------------------------------------------------ K9m: line-ending backslash
+    // mlb-escaped-nl = 1*( escape ws newline *( wschar / newline ) ) in situ on every N-byte input:
+    // Ok <=> at least one such group; bytes taken = all complete groups (oracle from the ABNF).
+    fn o9_nl_len(b: &[u8], i: usize) -> usize {
+        if i < b.len() && b[i] == b'\n' {
+            1
+        } else if i + 1 < b.len() && b[i] == b'\r' && b[i + 1] == b'\n' {
+            2
+        } else {
+            0
+        }
+    }
+
+    fn o9_mlb_escaped_nl(b: &[u8]) -> Option<usize> {
+        let mut i = 0;
+        let mut any = false;
+        loop {
+            if i >= b.len() || b[i] != b'\\' {
+                break;
+            }
+            let mut j = i + 1;
+            while j < b.len() && o_class::wschar(b[j]) {
+                j += 1;
+            }
+            let nl = o9_nl_len(b, j);
+            if nl == 0 {
+                break;
+            }
+            j += nl;
+            while j < b.len() {
+                if o_class::wschar(b[j]) {
+                    j += 1;
+                } else {
+                    let n = o9_nl_len(b, j);
+                    if n == 0 {
+                        break;
+                    }
+                    j += n;
+                }
+            }
+            i = j;
+            any = true;
+        }
+        if any {
+            Some(i)
+        } else {
+            None
+        }
+    }
+
+    fn k9_mlb_escaped_nl_n<const N: usize>() {
+        let buf: [u8; N] = kani::any();
+        let mut input = match core::str::from_utf8(&buf) {
+            Ok(s) => new_input(s),
+            Err(_) => return,
+        };
+        let r = mlb_escaped_nl(&mut input);
+        let want = o9_mlb_escaped_nl(&buf);
+        match (&r, want) {
+            (Ok(()), Some(n)) => assert!(
+                N - input.eof_offset() == n,
+                "line-ending backslash did not swallow exactly backslash, ws, newline and the following wschar / newline run"
+            ),
+            (Err(_), None) => {}
+            (Ok(()), None) => assert!(false, "mlb_escaped_nl accepts a backslash that is not followed by ws newline"),
+            (Err(_), Some(_)) => assert!(false, "mlb_escaped_nl rejects backslash ws newline"),
+        }
+        kani::cover!(want == Some(N));
+        kani::cover!(want == Some(2));
+        kani::cover!(want.is_none() && buf[0] == b'\\');
+        kani::cover!(want == Some(N) && buf[1] == b'\t');
+        core::mem::forget(r);
+    }
+
+    #[kani::proof]
+    #[kani::unwind(8)]
+    #[kani::stub(alloc::fmt::format, stub_format)]
+    fn k9_mlb_escaped_nl_n3() { k9_mlb_escaped_nl_n::<3>(); }
 }
